@@ -61,6 +61,12 @@ def cases():
     out.append((("Or", ("exists", qa, ("And", a, b)), ("forall", qa, ("Or", a, b))), [(b, ("Not", c)), (a, c)]))
     out.append((("exists", qa, ("forall", qa, ("Or", a, b))), [(a, c), (b, c)]))               # shadowing
     out.append((("And", ("exists", qa, ("Or", a, b)), ("Or", a, b)), [(("Or", a, b), c)]))      # same term bound and free
+    # an entry that maps a term to itself is an entry: under the most-general order it shields the keys inside it
+    out.append((("And", a, b), [(("And", a, b), ("And", a, b)), (a, c)]))
+    out.append((("Or", ("Not", a), ("And", a, b)), [(("Not", a), ("Not", a)), (a, c)]))
+    out.append((("LT", ("Plus", x, y), z), [(("Plus", x, y), ("Plus", x, y)), (x, three)]))
+    out.append((("forall", [("z", INT)], ("LT", ("Plus", x, y), z)), [(("Plus", x, y), ("Plus", x, y)), (x, three)]))
+    out.append((("And", a, b), [(a, a), (b, c)]))
     return [(Shape(f), [(Shape(k), Shape(v)) for k, v in m]) for f, m in out]
 
 
